@@ -55,6 +55,10 @@ pub struct Session {
 
     // Session state
     is_closed: Arc<std::sync::atomic::AtomicBool>,
+    /// Set (while the writer is still held) by a write that failed part-way: a
+    /// writer that was already queued on the lock must not append its frame
+    /// behind a torn one.
+    write_failed: Arc<std::sync::atomic::AtomicBool>,
 
     // Padding factory (wrapped in Arc for potential updates)
     padding: Arc<RwLock<Arc<PaddingFactory>>>,
@@ -136,6 +140,7 @@ impl Session {
             stream_data_rx: Arc::new(tokio::sync::Mutex::new(Some(stream_data_rx))),
             stream_receive_tx: Arc::new(RwLock::new(HashMap::new())),
             is_closed: Arc::new(std::sync::atomic::AtomicBool::new(false)),
+            write_failed: Arc::new(std::sync::atomic::AtomicBool::new(false)),
             padding: Arc::new(RwLock::new(padding)),
             is_client: true,
             send_padding: true,
@@ -170,6 +175,7 @@ impl Session {
             stream_data_rx: Arc::new(tokio::sync::Mutex::new(Some(stream_data_rx))),
             stream_receive_tx: Arc::new(RwLock::new(HashMap::new())),
             is_closed: Arc::new(std::sync::atomic::AtomicBool::new(false)),
+            write_failed: Arc::new(std::sync::atomic::AtomicBool::new(false)),
             padding: Arc::new(RwLock::new(padding)),
             is_client: false,
             send_padding: false,
@@ -1040,12 +1046,21 @@ impl Session {
             #[cfg(feature = "verif")]
             crate::verif::point("wp.before_writer_nopad").await;
             let mut writer = self.writer.lock().await;
+            // A write that failed part-way left a torn frame on the transport (the
+            // session is being closed): nothing may be written behind it.
+            if self.write_failed.load(std::sync::atomic::Ordering::SeqCst) {
+                return Err(AnyTlsError::SessionClosed);
+            }
             if let Err(e) = writer.write_all(&buffer).await {
                 // Release the writer before closing: close() takes the writer lock itself.
+                self.write_failed
+                    .store(true, std::sync::atomic::Ordering::SeqCst);
                 drop(writer);
                 return Err(self.handle_io_error("write_without_padding", e).await);
             }
             if let Err(e) = writer.flush().await {
+                self.write_failed
+                    .store(true, std::sync::atomic::Ordering::SeqCst);
                 drop(writer);
                 return Err(self.handle_io_error("flush_without_padding", e).await);
             }
@@ -1067,6 +1082,11 @@ impl Session {
         // handed out in the order in which packets reach the transport, or
         // concurrent writers would shape packet k with the line of another index.
         let mut writer = self.writer.lock().await;
+        // A write that failed part-way left a torn frame on the transport (the
+        // session is being closed): nothing may be written behind it.
+        if self.write_failed.load(std::sync::atomic::Ordering::SeqCst) {
+            return Err(AnyTlsError::SessionClosed);
+        }
 
         // Increment packet counter. Session packets are numbered from 1:
         // packet 0 is the authentication preamble (line 0 of the scheme).
@@ -1085,10 +1105,14 @@ impl Session {
             #[cfg(feature = "verif")]
             crate::verif::point("wp.before_writer_stop").await;
             if let Err(e) = writer.write_all(&buffer).await {
+                self.write_failed
+                    .store(true, std::sync::atomic::Ordering::SeqCst);
                 drop(writer);
                 return Err(self.handle_io_error("write_no_padding_stop", e).await);
             }
             if let Err(e) = writer.flush().await {
+                self.write_failed
+                    .store(true, std::sync::atomic::Ordering::SeqCst);
                 drop(writer);
                 return Err(self.handle_io_error("flush_no_padding_stop", e).await);
             }
@@ -1103,10 +1127,14 @@ impl Session {
             #[cfg(feature = "verif")]
             crate::verif::point("wp.before_writer_nosizes").await;
             if let Err(e) = writer.write_all(&buffer).await {
+                self.write_failed
+                    .store(true, std::sync::atomic::Ordering::SeqCst);
                 drop(writer);
                 return Err(self.handle_io_error("write_no_padding_sizes", e).await);
             }
             if let Err(e) = writer.flush().await {
+                self.write_failed
+                    .store(true, std::sync::atomic::Ordering::SeqCst);
                 drop(writer);
                 return Err(self.handle_io_error("flush_no_padding_sizes", e).await);
             }
@@ -1151,6 +1179,8 @@ impl Session {
                     );
                 }
                 if let Err(e) = writer.write_all(&buffer[..size]).await {
+                    self.write_failed
+                        .store(true, std::sync::atomic::Ordering::SeqCst);
                     drop(writer);
                     return Err(self.handle_io_error("write_padding_split_payload", e).await);
                 }
@@ -1176,6 +1206,8 @@ impl Session {
                 }
 
                 if let Err(e) = writer.write_all(&buffer).await {
+                    self.write_failed
+                        .store(true, std::sync::atomic::Ordering::SeqCst);
                     drop(writer);
                     return Err(self.handle_io_error("write_padding_payload_frame", e).await);
                 }
@@ -1191,6 +1223,8 @@ impl Session {
                 padding_frame.put_slice(&vec![0u8; size]); // padding data (zeros)
 
                 if let Err(e) = writer.write_all(&padding_frame).await {
+                    self.write_failed
+                        .store(true, std::sync::atomic::Ordering::SeqCst);
                     drop(writer);
                     return Err(self.handle_io_error("write_padding_frame_only", e).await);
                 }
@@ -1204,6 +1238,8 @@ impl Session {
                 buffer.len()
             );
             if let Err(e) = writer.write_all(&buffer).await {
+                self.write_failed
+                    .store(true, std::sync::atomic::Ordering::SeqCst);
                 drop(writer);
                 return Err(self.handle_io_error("write_remaining_payload", e).await);
             }
@@ -1211,6 +1247,8 @@ impl Session {
 
         tracing::trace!("[Session] write_with_padding: Flushing writer");
         if let Err(e) = writer.flush().await {
+            self.write_failed
+                .store(true, std::sync::atomic::Ordering::SeqCst);
             drop(writer);
             return Err(self.handle_io_error("flush_with_padding", e).await);
         }
